@@ -297,7 +297,7 @@ func (l *localFS) KeysPrefix(_ context.Context, token, prefix, delimiter string,
 		// NOTE: Glob is not workable, fall back to Walk
 		matches := make([]string, 0, 50)
 		err := afero.Walk(l.fs, path.Dir(prefix), func(pth string, info os.FileInfo, err error) error {
-			if info.IsDir() || err != nil {
+			if err != nil || info.IsDir() { // info is nil when err is set (e.g. the walked directory does not exist)
 				return nil
 			}
 			if strings.HasPrefix(pth, prefix) {
